@@ -171,6 +171,15 @@ def handle (line : String) : String :=
     match t.toNat?, v.toNat?, l.toNat? with
     | some t, some v, some l => run (parseDtlsRecordWithHeader ⟨t, v, 0, 0, l⟩) (rList rDtlsMessage) h
     | _, _, _ => "badrequest"
+  | "st" :: s :: d :: rest =>
+    match s.toNat?.bind TlsState.ofIdx, mkMessage rest with
+    | some st, some m =>
+      match tlsStateTransition st m (d == "1") with
+      | some s' => s!"ok {s'.toIdx}"
+      | none => "err InvalidTransition"
+    | some _, none => "badmsg"
+    | none, _ => "badrequest"
+  | "rp" :: steps => runRp steps
   | [op, l, h] =>
     match l.toNat? with
     | none => "badrequest"
@@ -182,15 +191,6 @@ def handle (line : String) : String :=
       else if op == "hs_clientkeyexchange" then run (mapP (take l) (fun d => Handshake.clientKeyExchange (.unknown d))) rHandshake h
       else if op == "hs_finished" then run (mapP (take l) .finished) rHandshake h
       else "unsupported"
-  | "st" :: s :: d :: rest =>
-    match s.toNat?.bind TlsState.ofIdx, mkMessage rest with
-    | some st, some m =>
-      match tlsStateTransition st m (d == "1") with
-      | some s' => s!"ok {s'.toIdx}"
-      | none => "err InvalidTransition"
-    | some _, none => "badmsg"
-    | none, _ => "badrequest"
-  | "rp" :: steps => runRp steps
   | op :: rest =>
     if op.startsWith "ext_tag_" then
       match tagParsers.lookup (op.drop 8).toString, rest with
